@@ -20,7 +20,8 @@ from engine.srcmodel import Repo
 from . import _pitfall_lints as L
 
 LINTS = (("shared mutable fill", L.shared_mutable_fill), ("stale loop carry", L.stale_loop_carry),
-         ("mutable default argument", L.mutable_default_argument), ("late-binding closure", L.late_binding_closure))
+         ("mutable default argument", L.mutable_default_argument), ("late-binding closure", L.late_binding_closure),
+         ("loop-scoped value read in a later loop", L.loop_scoped_value_in_later_loop), ("per-call memo keyed too narrowly", L.local_memo_key))
 
 _CONTROL = '''
 def a(keys):
@@ -47,6 +48,21 @@ def d(n):
     for i in range(n):
         fs.append(lambda t: t + i)
     return fs
+
+def e(pairs, groups):
+    for key, val in pairs:
+        val.touch()
+    out = []
+    for g in groups:
+        out.append((key, g))
+    return out
+
+def g(nodes):
+    seen = {}
+    for node in nodes:
+        if node.name not in seen:
+            seen[node.name] = node.probe()
+    return seen
 '''
 _control_ok = None
 
